@@ -23,7 +23,7 @@ def cases(tier, seed):
     plan = list(common.plan_scope(lvl))
     bat = list(common.batch_scope(lvl))
     if tier != "thorough":
-        con, buf, plan, bat = con[::4], buf[::3], plan[::3], bat[::3]
+        con, buf, plan, bat = common.thin(con, 4), common.thin(buf, 3), common.thin(plan, 3), common.thin(bat, 3)
     out = common.add_algs(con + buf + plan,
                           lambda c: common.shipped(c, lvl, "diag"))
     out += common.add_algs(bat, lambda c: common.batch_algs(c, lvl))
